@@ -225,7 +225,7 @@ func c06RefShape(n *c06Node, sb *strings.Builder) {
 
 type c06Case struct {
 	Seq   []int `json:"seq"`
-	Style int   `json:"style,omitempty"` // 0 plain; 1 {%- tag -%}; 2 {%-tag-%} (hyphens glued to the tag); 3 {%tag%}; 4 an engine with the delimiters [[ ]] [% %]
+	Style int   `json:"style,omitempty"` // 0 plain; 1 {%- tag -%}; 2 {%-tag-%} (hyphens glued to the tag); 3 {%tag%}; 4 an engine with the delimiters [[ ]] [% %]; 5 tag arguments spanning lines
 }
 
 // c06Styled re-spells the tags of a source in another, equally valid style.
@@ -237,6 +237,9 @@ func c06Styled(src string, style int) string {
 		return strings.NewReplacer("{% ", "{%-", " %}", "-%}").Replace(src)
 	case 3:
 		return strings.NewReplacer("{% ", "{%", " %}", "%}").Replace(src)
+	case 5: // tag arguments that span lines
+		return strings.NewReplacer("{% if true %}", "{% if true and\n true %}", "{% unless false %}", "{% unless false and\n true %}", "{% for x in a %}", "{% for x\n in\na %}",
+			"{% tablerow x in a %}", "{% tablerow x in a\n cols: 2 %}", "{% elsif true %}", "{% elsif true or\n false %}", "{% when 1 %}", "{% when 1,\n 2 %}", "{% assign v = 1 %}", "{% assign v =\n 1 %}").Replace(src)
 	case 4: // an engine configured with other delimiters (C19: equivalent to the defaults)
 		return strings.NewReplacer("{% ", "[% ", " %}", " %]", "{{ ", "[[ ", " }}", " ]]").Replace(src)
 	}
@@ -405,7 +408,7 @@ func TestC06(t *testing.T) {
 		c := &c06Case{Seq: seq}
 		if len(seq) <= 3 {
 			// the short sequences also in every other spelling, incl. an engine with its own delimiters
-			for st := 1; st <= 4; st++ {
+			for st := 1; st <= 5; st++ {
 				seqs.Sub.Eval()
 				cs := &c06Case{Seq: seq, Style: st}
 				if v := c06Seq.Eval(cs, seqs.Sub); v != nil {
@@ -474,7 +477,7 @@ func TestC06(t *testing.T) {
 			}
 			seqs.Sub.Class("one-edit")
 		}
-		if v := seqs.Run(&c06Case{Seq: seq, Style: rapid.IntRange(0, 4).Draw(t, "style")}); v != nil {
+		if v := seqs.Run(&c06Case{Seq: seq, Style: rapid.IntRange(0, 5).Draw(t, "style")}); v != nil {
 			t.Fatalf("%s", v.Message)
 		}
 	})
